@@ -35,17 +35,28 @@ def worker(path):
             bad("min-not-least-element", "min is not an element bounding all others", min=repr(got["min"]))
         if not (any(got["max"] == x for x in xs) and all(got["max"] >= x for x in xs)):
             bad("max-not-greatest-element", "max is not an element bounding all others", max=repr(got["max"]))
+        # ---- avg = sum / count also where the sum is not finite (an infinite element, or magnitudes whose sum overflows):
+        # an infinity or NaN divided by the count is that same infinity / NaN
+        for which, g in (("list", got), ("permuted", sh)):
+            sm, av = g["sum"], g["avg"]
+            if isinstance(sm, str) or isinstance(av, str) or math.isfinite(sm):
+                continue
+            if not ((math.isnan(sm) and math.isnan(av)) or sm == av):
+                bad("avg-not-sum-over-count non-finite-sum", "avg is not sum divided by the count", which=which, avg=repr(av), sum=repr(sm), n=n)
         if finite:
             ex = [Fraction(x) for x in xs]
             abs_sum = sum(abs(e) for e in ex)
             s_exact = sum(ex)
             # ---- sum: |sum - exact| <= n * eps * sum|x|
             tol = n * EPS * abs_sum
-            for name, g in (("sum", got["sum"]), ("sum(permuted)", sh["sum"])):
+            # (when the magnitudes add up to more than a double can hold, a partial sum may overflow whatever the exact total
+            # is: the rounding bound says nothing there, only "avg = sum / count" above applies)
+            sum_rules = abs_sum < Fraction(2) ** 1023
+            for name, g in ((("sum", got["sum"]), ("sum(permuted)", sh["sum"])) if sum_rules else ()):
                 if isinstance(g, str) or not math.isfinite(g) or abs(Fraction(g) - s_exact) > tol:
                     bad("sum-beyond-rounding", "sum differs from the exact sum beyond double rounding", which=name, got=repr(g), exact=float(s_exact))
             # ---- avg = sum / count
-            if math.isfinite(got["sum"]):
+            if sum_rules and math.isfinite(got["sum"]):
                 a_exp = got["sum"] / n
                 if got["avg"] != a_exp and abs(got["avg"] - a_exp) > abs(a_exp) * 2 ** -52:
                     bad("avg-not-sum-over-count", "avg is not sum divided by the count", avg=repr(got["avg"]), sum=repr(got["sum"]), n=n)
